@@ -73,7 +73,7 @@ Section Agree.
     run_code VmD mfv now selfv r k m = Some (v, m') ->
     run_code WasmD mfw now selfv r k m = Some (v, m') /\ length (m_words m') = length (m_words m).
   Proof.
-    induction k as [z|x| | | |op a b IHa IHb|a IHa|x a b IHa IHb|cn t pt e pe IHc IHt IHe|f args push IHargs|a push IHa|n a t push IHa IHt]
+    induction k as [z|x| | | |op a b IHa IHb|a IHa|x a b IHa IHb|cn p0 t pt pad e pe IHc IHt IHe|f args push IHargs|a push IHa|n a t push IHa IHt]
       using code_ind'; intros selfv r m v m' H; cbn [run_code] in H |- *.
     - inv H. auto.
     - destruct (lookup x r); [|discriminate]. inv H. auto.
@@ -89,12 +89,12 @@ Section Agree.
       destruct (IHa _ _ _ _ _ Ha) as [-> Hl1]. destruct (IHb _ _ _ _ _ H) as [-> Hl2]. split; [reflexivity|congruence].
     - destruct (run_code VmD mfv now selfv r cn m) as [[vc m1]|] eqn:Hc; [|discriminate].
       destruct (IHc _ _ _ _ _ Hc) as [-> Hl1]. destruct (0 <? vc)%Z.
-      + destruct (run_code VmD mfv now selfv r t m1) as [[vt m2]|] eqn:Ht; [|discriminate]. inv H.
+      + destruct (run_code VmD mfv now selfv r t (opt_push p0 m1)) as [[vt m2]|] eqn:Ht; [|discriminate]. inv H.
         destruct (IHt _ _ _ _ _ Ht) as [-> Hl2]. split; [reflexivity|].
-        destruct (0 <? pt); cbn [do_push tr m_words]; congruence.
-      + destruct (run_code VmD mfv now selfv r e m1) as [[vt m2]|] eqn:Ht; [|discriminate]. inv H.
+        destruct (0 <? pad); cbn [do_push tr m_words]; rewrite ?opt_push_length, Hl2, opt_push_length; exact Hl1.
+      + destruct (run_code VmD mfv now selfv r e (opt_push p0 m1)) as [[vt m2]|] eqn:Ht; [|discriminate]. inv H.
         destruct (IHe _ _ _ _ _ Ht) as [-> Hl2]. split; [reflexivity|].
-        destruct (0 <? pe); cbn [do_push tr m_words]; congruence.
+        rewrite opt_push_length, Hl2, opt_push_length. exact Hl1.
     - fold (run_args VmD mfv now selfv r) in H. fold (run_args WasmD mfw now selfv r).
       destruct (run_args VmD mfv now selfv r args m) as [[vs m1]|] eqn:Hargs; [|discriminate].
       assert (Hargs' : run_args WasmD mfw now selfv r args m = Some (vs, m1) /\ length (m_words m1) = length (m_words m)).
